@@ -512,6 +512,29 @@ func scripts() map[string]Script {
 				blk(6*time.Second, fee),
 			}
 		},
+		// late-decay-config: an asset is whitelisted with the neutral change rate 1 but a one-minute interval; a
+		// month later governance sets a growth rate of 1.1 per minute: the intervals count from that moment
+		// (two of them in the following blocks), not from the month before
+		"late-decay-config": func(g *Gen, c *Config) []Step {
+			c.Assets = []AssetSpec{
+				{Denom: "aaa", Weight: "0.5", WMin: "0", WMax: "10", TakeRate: "0", StartDelay: -int64(time.Hour), ChangeRate: "1", ChangeInterval: int64(time.Minute), Mag: "1000000"},
+				{Denom: "bbb", Weight: "1", WMin: "0", WMax: "10", TakeRate: "0", StartDelay: -int64(time.Hour), Mag: "1000000"},
+			}
+			c.Fund = "1000000000"
+			fee := "2000000stake"
+			return []Step{
+				{K: "delegate", A: 0, V: 1, Den: "aaa", Amt: "500000"},
+				{K: "delegate", A: 1, V: 2, Den: "bbb", Amt: "700000"},
+				blk(6*time.Second, fee),
+				blk(30*24*time.Hour, fee),
+				blk(6*time.Second, fee),
+				{K: "gov_update", Gov: &GovSpec{Signer: "auth", Denom: "aaa", Weight: "0.5", WMin: "0", WMax: "10", Take: "0", Rate: "1.1", Interval: int64(time.Minute)}},
+				blk(6*time.Second, fee),
+				blk(2*time.Minute, fee),
+				{K: "claim", A: 0, V: 1, Den: "aaa"},
+				blk(6*time.Second, fee),
+			}
+		},
 		"drain-dust-a": drainDust(false),
 		"drain-dust-b": drainDust(true),
 		// gov-table: every governance message x every signer kind with otherwise valid fields, in the asset
@@ -653,10 +676,10 @@ func checkDefs() map[string]*CheckDef {
 		},
 		{
 			Prop: "C17",
-			Scripts: []string{"gov-table", "full-slash-unbonding", "donate-first"},
+			Scripts: []string{"gov-table", "full-slash-unbonding", "donate-first", "late-decay-config"},
 			Runs: []ProfRun{{"gov", 64, 1200}, {"extreme", 24, 400}, {"time", 24, 400}},
 			Mons: func(r *Runner) []Monitor { return []Monitor{NewMonC17(r)} },
-			Required: []string{"C17.accepted.gov_params", "C17.accepted.gov_update", "C17.state/", "C17.matured-zero-entry", "C17.donate-before-first-use"},
+			Required: []string{"C17.accepted.gov_params", "C17.accepted.gov_update", "C17.state/", "C17.matured-zero-entry", "C17.donate-before-first-use", "C17.growth-configured-long-after-last-change"},
 			Rule: "every end-of-block of every history (profiles gov/extreme/time: configuration fuzz restricted to values the module's own handlers accepted on the main line, slashes, jailing, dust and drained assets, gaps from 1 ns to thousands of intervals) must return without error or panic; a situation class = accepted parameter class (rate/interval/take-rate classes) and end-block state class (pending unbondings/redelegations, flag, jailed validator, claim-interval class)",
 			Assumptions: commonAssumptions,
 		},
